@@ -120,7 +120,9 @@ class Cases:
     def project(self, st, e, el, as_place=False):
         if el == "*":
             if e[0] == "ref":
-                e = e[1]
+                # a reference remembers the place it was taken of next to the value seen then: reading through it reads
+                # the place as it is now, storing through it stores into the place
+                e = e[2] if len(e) >= 3 else e[1]
             else:
                 e = ("deref", e)
         elif isinstance(el, str):
@@ -150,18 +152,38 @@ class Cases:
                 pass
             else:
                 e = ("as", e, el["d"])
-        elif "i" in el:
-            e = ("index", e, self.local(st, el["i"]))
-        elif "ci" in el:
-            e = ("index", e, ("const", el["ci"], "usize"))
+        elif "i" in el or "ci" in el:
+            ix_ = self.local(st, el["i"]) if "i" in el else ("const", el["ci"], "usize")
+            if e[0] == "agg" and e[1] == "array" and ix_[0] == "const" and isinstance(ix_[1], int) and 0 <= ix_[1] < len(e[3]):
+                e = e[3][ix_[1]]  # a table built in this case, read at a known slot
+            else:
+                e = ("index", e, ix_)
         elif "sub" in el:
             e = ("subslice", e, el["sub"], el["to"])
         if as_place:
             return e  # naming a place to store into: neither the case's inputs nor remembered stores apply
+        t = expr_str(e)
+        if t in st["mem"]:
+            return st["mem"][t]   # what this walk stored there last
         e = self._inp(e)
         t = expr_str(e)
         if t in st["mem"]:
             return st["mem"][t]
+        return e
+
+    def place_of(self, st, p):
+        """The place itself (for a reference to it): no substitution of the case's inputs or of remembered stores."""
+        l = p["l"]
+        if l in st["loc"] and p["p"] and p["p"][0] == "*" and st["loc"][l][0] == "ref":
+            e = st["loc"][l]
+        elif 1 <= l <= self.body.arg_count:
+            e = ("arg", self.body.local_name(l))
+        elif l in st["loc"] and p["p"] and p["p"][0] == "*":
+            e = st["loc"][l]
+        else:
+            e = ("var", self.body.local_name(l))
+        for el in p["p"]:
+            e = self.project(st, e, el, as_place=True)
         return e
 
     def operand(self, st, op):
@@ -210,7 +232,12 @@ class Cases:
         if k == "use":
             return self.operand(st, rv["a"])
         if k in ("ref", "rawptr"):
-            return ("ref", self.place(st, rv["p"]))
+            v = self.place(st, rv["p"])
+            q = rv["p"]
+            if not (1 <= q["l"] <= self.body.arg_count or "*" in q["p"]):
+                return ("ref", v)       # a local of this walk: its value is the state
+            pl = self.place_of(st, q)
+            return ("ref", v) if pl == v else ("ref", v, pl)
         if k == "binop":
             return self.fold(("bin", rv["op"], self.operand(st, rv["a"]), self.operand(st, rv["b"])))
         if k == "unop":
